@@ -8,7 +8,7 @@ from props import rt
 PID = "C01"
 LEVEL = "proof"
 MODULE = "Sigc.Props.C01"
-REQUIRED = []
+REQUIRED = ["Sigc.C01.connect_appends", "Sigc.C01.connect_first_prepends", "Sigc.C01.turns_eq_snapshot", "Sigc.C01.turns_are_old_cells"]
 TRUSTED = rt.TRUSTED_RT
 ASSUMPTIONS = rt.ASSUMPTIONS_RT + []
 PARTIAL = []
